@@ -82,24 +82,24 @@ var specHeaderMarshal = []string{
 }
 var specHeaderUnmarshal = []string{
 	"equal0 [0:8] slice(pogreb.signature)",
-	"copy-to0 [0:] slice(param:data)",
+	"copy-to0 [0:8] slice(param:data)",
 	"get32 [8:12] pogreb.header.formatVersion",
 }
 var specEncodeRecord = []string{
 	"put16 [0:2] len(param:key)",
-	"put32 [2:] phi{len(param:value),len(param:value)|2147483648}",
-	"copy-to0 [6:] param:key",
-	"copy-to0 [K+6:] param:value",
+	"put32 [2:6] phi{len(param:value),len(param:value)|2147483648}",
+	"copy-to0 [6:K+V+10] param:key",
+	"copy-to0 [K+6:K+V+10] param:value",
 	"crc0 [0:K+V+6]",
 	"put32 [K+V+6:K+V+10] hash/crc32.ChecksumIEEE()",
 }
 var specDecodeRecord = []string{
 	"read-into0 [0:]",
 	"get16 [0:2]",
-	"get32 [2:] cmp:0,mask:2147483648",
-	"copy-to0 [0:] pogreb.segmentIterator.buf",
-	"read-into0 [6:]",
-	"get32 [K+V+6:] cmp:hash/crc32.ChecksumIEEE()",
+	"get32 [2:6] cmp:0,mask:2147483648",
+	"copy-to0 [0:K+V+10] pogreb.segmentIterator.buf",
+	"read-into0 [6:K+V+10]",
+	"get32 [K+V+6:K+V+10] cmp:hash/crc32.ChecksumIEEE()",
 	"crc0 [0:K+V+6] cmp:(encoding/binary.littleEndian).Uint32()",
 	"field0 [6:K+6] pogreb.record.key",
 	"field0 [K+6:K+V+6] pogreb.record.value",
@@ -154,31 +154,35 @@ func ruleRecordLayout(r *Run, p *Program, rule string) {
 	}
 	// decoder: the returned record type is Delete iff the bit was set
 	okDec := false
-	instrsOf(dec, func(in ssa.Instruction) {
-		ph, ok := in.(*ssa.Phi)
-		if !ok || !strings.HasSuffix(typeName(ph.Type()), "recordType") || len(ph.Edges) != 2 {
-			return
-		}
-		// the edge with constant 1 must come from the block entered when (valueSize & 1<<31) != 0
-		for i, e := range ph.Edges {
-			if k, ok := constInt(e); ok && k == 1 {
-				pred := ph.Block().Preds[i]
-				okDec = blockEnteredOnlyUnder(dec, pred, func(c *Cond) bool {
-					eq, ok := c.holdsEq()
-					if !ok || eq {
-						return false
-					}
-					bo, isb := strip(c.X).(*ssa.BinOp)
-					if !isb || bo.Op != token.AND {
-						return false
-					}
-					m, ism := constInt(bo.Y)
-					z, isz := constInt(c.Y)
-					return ism && m == 1<<31 && isz && z == 0
-				})
+	for _, df := range deepFuncs(p, dec) {
+		df := df
+		instrsOf(df, func(in ssa.Instruction) {
+			dec := df
+			ph, ok := in.(*ssa.Phi)
+			if !ok || !strings.HasSuffix(typeName(ph.Type()), "recordType") || len(ph.Edges) != 2 {
+				return
 			}
-		}
-	})
+			// the edge with constant 1 must come from the block entered when (valueSize & 1<<31) != 0
+			for i, e := range ph.Edges {
+				if k, ok := constInt(e); ok && k == 1 {
+					pred := ph.Block().Preds[i]
+					okDec = blockEnteredOnlyUnder(dec, pred, func(c *Cond) bool {
+						eq, ok := c.holdsEq()
+						if !ok || eq {
+							return false
+						}
+						bo, isb := strip(c.X).(*ssa.BinOp)
+						if !isb || bo.Op != token.AND {
+							return false
+						}
+						m, ism := constInt(bo.Y)
+						z, isz := constInt(c.Y)
+						return ism && m == 1<<31 && isz && z == 0
+					})
+				}
+			}
+		})
+	}
 	r.check(okDec, rule, "(*pogreb.segmentIterator).next:type-bit", p.Pos(dec.Pos()), "a record is decoded as Delete exactly when bit 31 of the value-size field is set", "the decoder does not derive the record type from bit 31 of the value-size field")
 	// constants of the record type
 	checkConst(r, p, rule, "recordTypePut", "0")
@@ -264,16 +268,21 @@ func ruleC08Gates(r *Run, p *Program, rule string) {
 	r.fn(funcKey(g))
 	// truncation point
 	var trunc *ssa.Call
-	instrsOf(g, func(in ssa.Instruction) {
-		c, ok := in.(*ssa.Call)
-		if !ok {
-			return
+	var truncSite ssa.Instruction
+	{
+		w, _ := allNodes(p, g)
+		for nd := range w.Reached {
+			c, ok := nd.In.(*ssa.Call)
+			if !ok {
+				continue
+			}
+			if calleeKey(&c.Call) == "(*pogreb.file).truncate" && funcKey(nd.Ctx.Fn) != "(*pogreb.file).truncate" {
+				trunc = c
+				truncSite = rootSite(nd)
+			}
 		}
-		if calleeKey(&c.Call) == "(*pogreb.file).truncate" || isInvoke(&c.Call, "fs.File", "Truncate") {
-			trunc = c
-		}
-	})
-	if r.anchor(rule, "truncate call in recoveryIterator.next", trunc != nil) {
+	}
+	if r.anchor(rule, "truncate call under recoveryIterator.next", trunc != nil) {
 		arg := trunc.Call.Args[len(trunc.Call.Args)-1]
 		okv := false
 		if cv, ok := strip(arg).(*ssa.Convert); ok && isFieldLoad(cv.X, "pogreb.segmentIterator.offset") {
@@ -331,10 +340,12 @@ func ruleC08Gates(r *Run, p *Program, rule string) {
 		}
 		r.bad(rule, construct, p.Pos(instrPos(ret)), "the segment iterator can return an error ("+valString(ev)+") that is neither a sentinel recovery compares against nor the pass-through of io.ReadFull: recovery cannot recognise it as a damaged tail and the recovering Open fails on every restart")
 	}
-	r.universe(rule+":error-returns", nerr, 4)
+	r.universe(rule+":error-returns", nerr, 3)
 	// after a truncation the iterator goes on with the next segment
 	if trunc != nil {
-		checkTailContinue(r, p, rule, g, trunc)
+		if ts, ok := truncSite.(*ssa.Call); ok {
+			checkTailContinue(r, p, rule, g, ts)
+		}
 	}
 }
 
